@@ -1,2 +1,69 @@
--- placeholder driver (model for C12 not built yet)
-def main : IO Unit := pure ()
+/-
+  Driver for the context / response-annotation model (C12).
+    hist <nev> {ev}*
+      ev = Q <worker> <rid> <conn> <seq> <flags> <ser> <anns> <corr> <kind>   kind = H <ok> | P | R | C <keys> <a|m> <raises> | O <keys> <a|m>
+         | W <rid>
+    → replies  rid:conn:keys;...  |  snapshots  rid:conn:seq:flags:ser:anns:corr;...
+-/
+import PyroModel.Context
+import Driver.Util
+
+open Pyro.Context Driver
+
+def parseMode (s : String) : AnnMode := if s == "m" then .mutate else .assign
+
+def parseKind : List String → Option (Kind × List String)
+  | "H" :: ok :: r => some (.handshake (ok == "1"), r)
+  | "P" :: r => some (.ping, r)
+  | "R" :: r => some (.refused, r)
+  | "C" :: keys :: m :: raises :: r => do
+    let ks ← parseNatList keys
+    some (.call ks (parseMode m) (raises == "1"), r)
+  | "O" :: keys :: m :: r => do
+    let ks ← parseNatList keys
+    some (.oneway ks (parseMode m), r)
+  | _ => none
+
+def parseEvs : Nat → List String → Option (List Event)
+  | 0, [] => some []
+  | n + 1, "W" :: rid :: r => do
+    let rid ← rid.toNat?
+    let rest ← parseEvs n r
+    some (.onewayRun rid :: rest)
+  | n + 1, "Q" :: w :: rid :: conn :: seq :: flags :: ser :: anns :: corr :: r => do
+    let w ← w.toNat?
+    let rid ← rid.toNat?
+    let conn ← conn.toNat?
+    let seq ← seq.toNat?
+    let flags ← flags.toNat?
+    let ser ← ser.toNat?
+    let anns ← parseNatList anns
+    let corr ← corr.toNat?
+    let (k, r') ← parseKind r
+    let rest ← parseEvs n r'
+    some (.request w rid ⟨conn, seq, flags, ser, anns, corr⟩ k :: rest)
+  | _, _ => none
+
+def insertSorted (x : Nat) : List Nat → List Nat
+  | [] => [x]
+  | y :: ys => if x ≤ y then x :: y :: ys else y :: insertSorted x ys
+
+def dedupSorted : List Nat → List Nat
+  | a :: b :: r => if a = b then dedupSorted (b :: r) else a :: dedupSorted (b :: r)
+  | l => l
+
+def canonKeys (ks : List (Nat × Nat)) : String :=
+  natListToString (dedupSorted ((ks.map (·.1)).foldr insertSorted []))
+
+def step' : List String → String
+  | "hist" :: n :: rest =>
+    match n.toNat?.bind (fun k => parseEvs k rest) with
+    | some evs =>
+      let s := run {} evs
+      ";".intercalate (s.replies.map fun r => s!"{r.rid}:{r.conn}:{canonKeys r.keys}") ++ " | " ++
+      ";".intercalate (s.snaps.map fun sn =>
+        s!"{sn.rid}:{sn.seen.conn}:{sn.seen.seq}:{sn.seen.flags}:{sn.seen.serId}:{natListToString sn.seen.anns}:{sn.seen.corr}")
+    | none => "bad-op"
+  | _ => "bad-op"
+
+def main : IO Unit := runDriver step'
